@@ -242,6 +242,14 @@ SPECIAL_CLASSES = {"MultiReg", "AsyncResetSynchronizer", "Memory", "Instance", "
                    "DDRTristate", "ClkInput", "ClkOutput"}
 
 
+def q_is_path(n):
+    if isinstance(n, ast.Name):
+        return True
+    if isinstance(n, (ast.Attribute, ast.Subscript)):
+        return q_is_path(n.value)
+    return False
+
+
 def _is_name(n, name):
     return isinstance(n, ast.Name) and n.id == name
 
@@ -294,6 +302,7 @@ class FX:
         self.inline_classes = set(inline_classes)
         self.no_inline = set(no_inline)
         self.entry_returns = {}
+        self.localdefs = {}
         self.assigns = []
         self.trans = []
         self.insts = []
@@ -988,6 +997,12 @@ class FX:
                 return ast.Attribute(value=ast.Name(id="self", ctx=ast.Load()), attr=t.attr, ctx=ast.Load())
             if isinstance(t, ast.Name) and best is None:
                 best = ast.Name(id=t.id, ctx=ast.Load())
+            if isinstance(t, ast.Attribute) and best is None and q_is_path(t.value):
+                # nested attribute target (self.ev.tx = ...): the canonical path of the target itself
+                n = copy.deepcopy(t)
+                n.value = self.canon(n.value, env)
+                n.ctx = ast.Load()
+                return n
         if best is not None and sub is not None:
             return ast.Attribute(value=copy.deepcopy(sub), attr=best.id, ctx=ast.Load())
         return best if best is not None else fallback
@@ -1102,7 +1117,12 @@ class FX:
                     if name in ("Cat", "Replicate", "Mux", "Array", "Constant", "C", "ClockSignal", "ResetSignal"):
                         return self.canon(e, env)
                     return nm
-        return self.canon(e, env)
+        c = self.canon(e, env)
+        if targets and len(targets) == 1 and isinstance(targets[0], ast.Name) and len(norm(c)) > 60:
+            # long call result bound to a local: keep the local's name, remember the definition
+            self.localdefs[targets[0].id] = c
+            return ast.Name(id=targets[0].id, ctx=ast.Load())
+        return c
 
     decl = None
 
